@@ -216,12 +216,29 @@ func tbC05(c *Ctx, env *TBEnv, nprogs int) {
 			// at the instant a job's completion has been recorded (its process may not have been reaped yet)
 			{{OnComplete: 1 + c.Rng.Intn(3), Sig: "KILL"}},
 			{{OnComplete: 1 + c.Rng.Intn(2), Sig: "TERM"}},
+			// a handled signal delivered to the whole process group at the instant a completion is recorded:
+			// the job monitor is inside its own completion handling
+			{{OnComplete: 1, Sig: "TERM", Group: true}},
+			{{OnComplete: 2, Sig: "INT", Group: true}},
+			{{OnComplete: 3, Sig: "TERM", Group: true}},
 			// mrp frozen while jobs complete, then killed
 			{{AfterMs: 100 + c.Rng.Intn(400), Sig: "STOPKILL"}},
 			{{AfterMs: 300 + c.Rng.Intn(900), Sig: "STOPKILL"}},
 		} {
 			s := base
 			s.Name = fmt.Sprintf("%s#%v", p.Name, sig)
+			s.Signals = sig
+			specs = append(specs, &s)
+		}
+		// --zip: killed while the finished pipestance's metadata is being archived and removed
+		for _, sig := range [][]TBSignal{
+			{{OnFile: "_metadata.zip.tmp", Sig: "KILL"}},
+			{{OnFile: "_metadata.zip", Sig: "KILL"}},
+			{{OnFile: "_metadata.zip", Sig: "TERM"}},
+		} {
+			s := base
+			s.Zip = true
+			s.Name = fmt.Sprintf("%s#zip%v", p.Name, sig)
 			s.Signals = sig
 			specs = append(specs, &s)
 		}
